@@ -246,6 +246,23 @@ Theorem C19_client_window_limit_const : forall key f ops x, forallb op_okb ops =
 Proof. exact client_window_limit_const. Qed.
 Print Assumptions C19_client_window_limit_const.
 
+(* the observable itself: the start times reported by the events of a history (failed requests included), oldest first, are the
+   limiter's record, so no half-open one-second window holds more than the limit of them *)
+Theorem C19_client_starts : forall f ops,
+  let r := do_ops (cl_init f) ops in starts_of (concat (snd r)) = rev (hist (c_rate (fst r))).
+Proof. exact client_starts. Qed.
+Print Assumptions C19_client_starts.
+
+Theorem C19_client_starts_window : forall f ops x, forallb op_okb ops = true ->
+  (count_in_window window x (starts_of (concat (snd (do_ops (cl_init f) ops)))) <= limit true)%nat.
+Proof. exact client_starts_window. Qed.
+Print Assumptions C19_client_starts_window.
+
+Theorem C19_client_starts_window_const : forall key f ops x, forallb op_okb ops = true -> Forall (fun o => o_key o = key) ops ->
+  (count_in_window window x (starts_of (concat (snd (do_ops (cl_init f) ops)))) <= limit key)%nat.
+Proof. exact client_starts_window_const. Qed.
+Print Assumptions C19_client_starts_window_const.
+
 Example C19_witness_client :
   forallb op_okb [w_op; w_op] = true /\
   map (map e_req) (snd (do_ops (cl_init []) [w_op; w_op])) = [[true]; [false]] /\
